@@ -50,7 +50,14 @@ class CancellableAction(Future):
 
         try:
             with kiwipy.capture_exceptions(self):
-                self.set_result(self._action(*args, **kwargs))
+                result = self._action(*args, **kwargs)
+                # The action may have been cancelled while it was running (by a request made from within it)
+                if not self.done():
+                    self.set_result(result)
+        except asyncio.InvalidStateError:
+            # ``capture_exceptions`` could not store an exception of the action because the action was cancelled
+            if not self.cancelled():
+                raise
         finally:
             self._action = None  # type: ignore
 
